@@ -412,6 +412,45 @@ class LoopFn:
                 raise Unsupported("call to unmapped function %s" % name)
             args = list(inn[1:])
             spec = self.calls[name]
+            if isinstance(spec, dict) and spec.get("event"):          # a ghost event, receiver and arguments not evaluated
+                g = spec.get("to", "evs")
+                return "(let %s := %s ++ [%s] in %s)" % (g, g, spec["event"], k("0"))
+            if isinstance(spec, dict) and spec.get("fail_ctor"):
+                # failWith(SomeFailure(this, file, line, ...), terminator): the ghost event AFail "SomeFailure" file line; the test is left
+                c = args[0]
+                while c.get("kind") in SKIP or c.get("kind") in CASTS:
+                    c = self.inner(c)[0]
+                if c.get("kind") not in ("CXXTemporaryObjectExpr", "CXXConstructExpr"):
+                    raise Unsupported("failWith argument of kind %s" % c.get("kind"))
+                cls = norm_type(qual(c))
+                cargs = self.inner(c)
+                g = spec.get("to", "evs")
+                return self.E(cargs[1], lambda f: self.E(cargs[2], lambda l: "(let %s := %s ++ [AFail %s %s %s] in %s)" % (
+                    g, g, cxx2coq.coq_string(cls), f, l, self.ret("tt"))))
+            if isinstance(spec, dict) and spec.get("cstr_op"):
+                # an operation of SimpleString objects built from C strings, replaced by its textbook meaning on the strings at the pointers
+                ops = []
+                if kd == "CXXMemberCallExpr":
+                    callee = inn[0]
+                    while callee.get("kind") in ("ImplicitCastExpr", "ParenExpr"):
+                        callee = self.inner(callee)[0]
+                    ops.append(self.inner(callee)[0])
+                ops += args
+
+                def cptr(x):
+                    while True:
+                        if x.get("kind") in SKIP or x.get("kind") in CASTS or x.get("kind") in ("CXXConstructExpr", "CXXTemporaryObjectExpr"):
+                            if x.get("kind") in CASTS and x.get("castKind") == "LValueToRValue":
+                                return x
+                            x = self.inner(x)[0]
+                            continue
+                        return x
+
+                def ev(i, acc):
+                    if i == len(ops):
+                        return k("(" + spec["cstr_op"].format(*acc) + ")")
+                    return self.E(cptr(ops[i]), lambda v: ev(i + 1, acc + [v]))
+                return ev(0, [])
             if kd == "CXXOperatorCallExpr" and isinstance(spec, dict) and spec.get("operands_fields"):
                 # a free operator on objects: each operand contributes the named fields
                 vals = []
@@ -539,6 +578,11 @@ class LoopFn:
                 flags.add("mem")
                 assigned.add(spec["ghost"])
                 refs.add(spec["ghost"])
+            if isinstance(spec, dict) and (spec.get("event") or spec.get("fail_ctor")):
+                assigned.add(spec.get("to", "evs"))
+                refs.add(spec.get("to", "evs"))
+            if isinstance(spec, dict) and spec.get("cstr_op"):
+                flags.add("mem")
             if isinstance(spec, dict) and spec.get("fn"):
                 flags.add("mem")
                 flags.add("call")
@@ -604,7 +648,7 @@ class LoopFn:
                 dup = (([el] if el else []) + rest) if c0["opcode"] == "&&" else [th]
                 r2, a2, d2, f2 = set(), set(), set(), set()
                 self.scan(inn[0], r2, a2, d2, f2)
-                if any(self.has_loop(x) for x in dup) and not a2 and "store" not in f2 and "call" not in f2:
+                if any(self.is_large(x) for x in dup) and not a2 and "store" not in f2 and "call" not in f2:
                     c = self.tmp("b")
                     joined = self.E(inn[0], lambda v: "(Go %s)" % v)
                     return "(match (%s : cres %s Z) with Go %s => %s | Done r => Done r | Oob => Oob | NoFuel => NoFuel end)" % (
@@ -671,6 +715,12 @@ class LoopFn:
             inn = self.inner(s)
             return len(inn) > 2 and self.always_jumps(inn[1]) and self.always_jumps(inn[2])
         return False
+
+    def is_large(self, s):
+        """contains a loop, a call or a conditional: too much to copy once per operand of a lazy operator"""
+        if s.get("kind") in ("WhileStmt", "DoStmt", "ForStmt", "IfStmt", "CallExpr", "CXXMemberCallExpr", "CXXOperatorCallExpr"):
+            return True
+        return any(self.is_large(c) for c in self.inner(s))
 
     def has_loop(self, s):
         if s.get("kind") in ("WhileStmt", "DoStmt", "ForStmt"):
